@@ -402,6 +402,7 @@ func projectCR(u *unstructured.Unstructured) CRP {
 		if len(ph) == 1 {
 			c.Objects = ph[0].Keys
 		}
+		c.TmplHash = shortHash(objs)
 	case "Package", "ClusterPackage":
 		c.Paused, _ = spec["paused"].(bool)
 		c.Hash = getStr(status, "unpackedHash")
